@@ -54,7 +54,7 @@ def r1a(ctx, sc, lex):
     rep = ctx.rep; v = sc.v; n = 0
     a = sc.fa(lex)
     cfg, hdr, sw, eob, gnb = lex_anchors(ctx, sc, lex)
-    R = a.restores(); T = sc.take_sites(lex)
+    R = sc.restore_sites(lex); T = sc.take_sites(lex)
     if not R or not T:
         rep.broken('%s: no restore (%d) / take (%d) shape found in %s' % (v.name, len(R), len(T), lex.name))
     h0 = first_ins(hdr)
@@ -120,9 +120,7 @@ def _site(sc, lex, x, sw, eob, hdr):
     if x.op in ('call', 'invoke'): return 'call-' + norm(x.callee)
     if cfg.dominates(eob, x.blk): return 'end-of-buffer-arm'
     if not cfg.dominates(sw.blk, x.blk) or x.blk is sw.blk: return 'before-action-switch'
-    for c, l in sw.cases:
-        if cfg.dominates(lex.bmap[l], x.blk): return 'action-%d' % c
-    return 'in-actions'
+    return 'in-an-action'
 
 # ---------------------------------------------------------------- R1(b)
 
@@ -137,7 +135,7 @@ def r1b(ctx, sc):
             continue
         for fn in fns:
             a = sc.fa(fn); cfg = sc.prog.cfg(fn)
-            R = a.restores(); T = sc.take_sites(fn)
+            R = sc.restore_sites(fn); T = sc.take_sites(fn)
             k0 = 'C08.R1:%s:%s:' % (skel(v), nm)
             n += 1
             if not R:
@@ -209,7 +207,11 @@ def r1c(ctx, sc):
             for b in fn.blocks:
                 br = b.ins[-1]
                 if br.op != 'br' or not br.ops or len(cfg.succ[b]) != 2: continue
-                isnull = flow.branch_on_null(fn, br) is not None
+                bn = flow.branch_on_null(fn, br)
+                isnull = False
+                if bn is not None:      # null test of a parameter (yy_flush_buffer(NULL) is a no-op)
+                    d = fn.def_of(flow.strip_casts(fn, bn[0]))
+                    isnull = d is not None and d.op == 'load' and a.loc(d.ops[0])[0] == 'local' and a.loc(d.ops[0])[1].endswith('.addr')
                 if not (about_current_buffer(sc, fn, br) or isnull): continue
                 for t in cfg.succ[b]:
                     # the edge that leads away from the take
